@@ -54,10 +54,12 @@ func (r rec) String() string {
 
 // caseRef is the replayable identity of a case, attached to every violation.
 type caseRef struct {
-	Index    int         `json:"index"`
-	Backend  string      `json:"backend"`
-	Config   interface{} `json:"config,omitempty"`
-	Workload *workload   `json:"workload,omitempty"`
+	Index   int         `json:"index"`
+	Backend string      `json:"backend"`
+	Config  interface{} `json:"config,omitempty"`
+	// ConfigText is the configuration text the backend was built from (through backends.InitBackend).
+	ConfigText string    `json:"config_text,omitempty"`
+	Workload   *workload `json:"workload,omitempty"`
 }
 
 type env struct {
@@ -254,8 +256,12 @@ func (e *env) account(backend, cfgClass string, w *workload, payloads, records i
 	e.r.Event("payloads:"+backend, payloads)
 	e.r.Event("records:"+backend, records)
 	mix, hist := w.typeMix()
-	if payloads >= 2 || hist {
-		e.r.Nontrivial(fmt.Sprintf("%s|%s|b%s|t%d|h%s|r%d", backend, cfgClass, batchClass(payloads), mix, w.histClass(), w.Rounds))
+	extreme := mix&2 != 0 && w.MaskKind != "none" && w.MaskKind != "random"
+	if payloads >= 2 || hist || extreme {
+		e.r.Nontrivial(fmt.Sprintf("%s|%s|b%s|t%d|h%s|r%d|m%s", backend, cfgClass, batchClass(payloads), mix, w.histClass(), w.Rounds, w.MaskKind))
+	}
+	if mix&2 != 0 {
+		e.r.Event("timer-evals:mask="+w.MaskKind, 1)
 	}
 	if hist {
 		e.r.Event("hist-evals:"+w.histClass(), 1)
@@ -308,7 +314,7 @@ func (e *env) runCase(i int, only string) {
 	}
 }
 
-func setDisabled(v *viper.Viper, d gostatsd.TimerSubtypes) {
+func setDisabled(v *cfg, d gostatsd.TimerSubtypes) {
 	set := func(k string, b bool) {
 		if b {
 			v.Set("disabled-sub-metrics."+k, true)
@@ -389,7 +395,7 @@ func sortedBounds(s *series) []float64 {
 func TestCheck(t *testing.T) {
 	r := mon.Start(t, "C17")
 	defer r.Finish()
-	r.Rule("case = (aggregate state, backend, configuration). States come from the real MetricMap.Receive + MetricAggregator (1 or 2 flush rounds, so idle series occur): 1..60 series over a small pool of names [A-Za-z0-9_.-] and tags [A-Za-z0-9_.:/-] (several tag sets per name, duplicate keys, host: tags, numeric looking values), sources present/absent, all four types, histogram timers (gsd_histogram:...), percentile lists {}, {90}, {50,99}, {95,-10}, {99.9}, random sub-metric masks, values with <= 6 decimals; rare families: a name longer than a datagram, tags with an empty key or value, an InfluxDB-only extended alphabet (space, comma, equals in tags) that exercises the escaping named in the property's anchors, an OTLP resource-key collision family. Every state is sent through graphite (legacy/basic/tags, prefixes, suffix), influxdb (v1/v2, gzip on/off, batch 1..50/default), statsdaemon (udp/tcp, tags on/off, metrics and events), datadog (deflate on/off, batch sizes), newrelic (infra/insights/metrics, renamed fields, tag prefix), otlp (AsGauge/AsHistogram, gzip on/off, resource keys, batch sizes), cloudwatch and stdout, each built by its viper factory and pointed at a local sink. Non-trivial: the flush spans >= 2 payloads or the state holds a histogram timer; distinct by (backend, configuration class, payload-count class, type mix, histogram yes/no, rounds).")
+	r.Rule("case = (aggregate state, backend, configuration). States come from the real MetricMap.Receive + MetricAggregator (1 or 2 flush rounds, so idle series occur): 1..60 series over a small pool of names [A-Za-z0-9_.-] and tags [A-Za-z0-9_.:/-] (several tag sets per name, duplicate keys, host: tags, numeric looking values), sources present/absent, all four types, histogram timers (gsd_histogram:...), percentile lists {}, {90}, {50,99}, {95,-10}, {99.9}, sub-metric masks (none, independent coin flips, and the extreme ones: everything off, all nine plain aggregations off with all / some percentile-derived ones on, all percentile-derived off, exactly one on, exactly one off), timer-histogram-limit 0/1/2/default/3/5 with gsd_histogram timers expected from the tag (buckets only, nothing at limit 0), values with <= 6 decimals; rare families: a name longer than a datagram, tags with an empty key or value, an InfluxDB-only extended alphabet (space, comma, equals in tags) that exercises the escaping named in the property's anchors, an OTLP resource-key collision family. Every state is sent through graphite (legacy/basic/tags, prefixes, suffix), influxdb (v1/v2, gzip on/off, batch 1..50/default), statsdaemon (udp/tcp, tags on/off, metrics and events), datadog (deflate on/off, batch sizes), newrelic (infra/insights/metrics, renamed fields, tag prefix), otlp (AsGauge/AsHistogram, gzip on/off, resource keys, batch sizes), cloudwatch and stdout, each built from configuration text (toml/yaml/json of the documented keys -> viper.ReadConfig -> backends.InitBackend) and pointed at a local sink. Non-trivial: the flush spans >= 2 payloads or the state holds a histogram timer; or a timer meets an extreme mask; distinct by (backend, configuration class, payload-count class, type mix, histogram limit/data/idle class, rounds, mask kind).")
 	r.Assume("the strict decoders of this check (Graphite plaintext+tags, InfluxDB line protocol, Datadog/New Relic JSON via encoding/json, OTLP via the generated protobuf types, CloudWatch input structs) define 'syntactically valid'")
 	r.Assume("strconv.ParseFloat/FormatFloat, compress/gzip, compress/zlib, encoding/json and google.golang.org/protobuf are correct")
 	r.Assume("socket based backends are observed through the verif-tagged VerifSetConnFactory hook: one recorded Write = one datagram / stream segment; CloudWatch through VerifNewClient with a recording API mock")
